@@ -42,8 +42,15 @@ CREATORS = ["none", "ok", "failfirst", "wrongtype", "falsy"]
 MODES = {"S": "single", "N": "session", "P": "percall"}
 
 
-def make_classes(shape, creator_kind, stats, inherit=False, slow=False):
-    """slow: making an instance takes half a second (of virtual time)"""
+class FailingResource(object):
+    """something the application tracks on its connection and whose close() fails"""
+    def close(self):
+        raise RuntimeError("this resource cannot be closed")
+
+
+def make_classes(shape, creator_kind, stats, inherit=False, slow=False, resraise=False):
+    """slow: making an instance takes half a second (of virtual time); resraise: the first call served by an instance tracks, on
+    the caller's connection, a resource whose close() raises"""
     import Pyro5.api as P
     serial = itertools.count(1)
     classes = {}
@@ -60,6 +67,10 @@ def make_classes(shape, creator_kind, stats, inherit=False, slow=False):
                 stats["byserial"][self.serial] = weakref.ref(self)
 
         def who(self):
+            if resraise and not getattr(self, "tracked", False):
+                from Pyro5.callcontext import current_context
+                self.tracked = FailingResource()
+                current_context.track_resource(self.tracked)
             return self.serial
 
         def note(self):
@@ -160,7 +171,7 @@ def end_connection(p, abortive):
 
 
 def run_history(h, shape, creator_kind, servertype="multiplex", hookraise=False, two_daemons=False, abortive=False, inherit=False, rereg=False,
-                oneway_first=False):
+                oneway_first=False, resraise=False):
     """oneway_first: instances take a while to make, and every call is preceded by a oneway call on the same class over the same
     connection (a oneway call runs in a thread of its own while the connection's next request is already being served)"""
     import Pyro5.api as P
@@ -174,7 +185,7 @@ def run_history(h, shape, creator_kind, servertype="multiplex", hookraise=False,
     def main():
         sc = S.CUR
         d = daemon_class(P, hookraise)(host="127.0.0.1")
-        classes = make_classes(shape, creator_kind, stats, inherit=inherit, slow=oneway_first)
+        classes = make_classes(shape, creator_kind, stats, inherit=inherit, slow=oneway_first, resraise=resraise)
         uris = {K: d.register(cls, K) for K, cls in classes.items()}
         drv = memnet.ServerDriver(d)
         conns = {}
@@ -330,9 +341,11 @@ def run(ctx):
             inh = {1: True, 4: True, 2: "override", 5: "override"}.get(i % 8, False)   # the classes inherit their behaviour / override an inherited one
             rr = (not two) and i % 4 == 2     # unregistered and registered again half way
             ow = i % 6 == 4 and not two and not rr
-            traces.append(run_history(h, shape, "none", servertype=st, hookraise=hr, two_daemons=two, abortive=ab, inherit=inh, rereg=rr, oneway_first=ow))
+            rsr = i % 5 == 3        # the instances track a resource whose close() fails
+            traces.append(run_history(h, shape, "none", servertype=st, hookraise=hr, two_daemons=two, abortive=ab, inherit=inh, rereg=rr, oneway_first=ow,
+                                      resraise=rsr))
             metas.append({"part": "history" + ("-threadserver" if st == "thread" else ""), "shape": shape, "creator": "none", "h": h, "hookraise": hr,
-                          "two_daemons": two, "abortive": ab, "inherit": inh, "rereg": rr, "oneway_first": ow})
+                          "two_daemons": two, "abortive": ab, "inherit": inh, "rereg": rr, "oneway_first": ow, "resraise": rsr})
     for creator in CREATORS[1:]:
         for shape in ("truthy", "falsy_len"):
             for j, h in enumerate(hs[n_plain:n_plain + n_creator]):
